@@ -88,7 +88,7 @@ CHECK = LineCheck("C19", ["SimVerif.Props.C19"], "h_pcap", ["h_pcap.cpp"], "pcap
 # ---- stage 2: whole simulations with capture on -------------------------------------------
 from props.common import ScenarioCheck
 from specs import pcap_trace
-import net_gen
+import net_gen, tcp_stream_gen
 import vlib, time
 
 def gen2(seed, tier):
@@ -97,6 +97,8 @@ def gen2(seed, tier):
     out = []
     for i, f in enumerate(fams):
         out += net_gen.generate(seed * 10 + i, tier, f, n // len(fams), pcap=True)
+    # connected sockets moved to a new object in mid-stream: the byte counters travel with the connection
+    out += tcp_stream_gen.generate_moved(seed * 10 + 9, tier, 40 if tier == "quick" else 1500, pcap=True)
     return out
 
 def nontrivial2(impl):
